@@ -68,6 +68,10 @@ def collect(ctx):
             d["mono"] = r[2]
         elif k == "STAGE":
             d["stages"][r[2]] = r[3]
+        elif k == "GENV":
+            d["genv"] = r[2]
+        elif k == "SIG":
+            d["sig"] = (r[2], r[3])
         elif k == "NAMES":
             d["names"] = r[2:]
         elif k == "SIGTPARAMS":
@@ -335,6 +339,12 @@ def run(ctx):
         "impl_oracle_failures": len(ctx.violations) + sum(h["count"] for h in ctx.known_hits),
         "model_diffs": sum(1 for n, _ in ctx.broken_ties if n.startswith("model≠impl")),
     }
+    # round 11: the static choice of mono.rs against the runtime key of the receiver, on the real Mono dumps of the C01 streams
+    from props import tsound
+    cov["static_dispatch_vs_runtime_key(traitcall_static_dispatch)"] = tsound.collect_and_evaluate(ctx)
+    # ... and on C07's own stream (several type parameters, bounded generics at many instances, the rich-generics library)
+    cov["static_dispatch_vs_runtime_key(C07 stream)"] = tsound.evaluate(ctx, progs)
+    ctx.assumptions += tsound.ASSUMPTIONS
     ctx.assumptions += [
         "Sem (Model/Sem.lean) at Core level dispatches a trait call on the runtime value (type key of the receiver); programs whose Core needs "
         "type-passing dispatch (receiver of a type without a key, e.g. a tuple) are not compared by the sem oracle and are counted",
